@@ -11,6 +11,7 @@ def handle (case : Json) : Json :=
   | "ssa_validate_eval" => ssaValidateEval case
   | "reg_validate_eval" => regValidateEval case
   | "builder_run" => builderRun case
+  | "panic_run" => panicRun case
   | "convert" => convertOp case
   | "arith" => arithOp case
   | "literal_check" => literalCheck case
